@@ -330,23 +330,6 @@ theorem splitScalars_sep (d : Nat) (a rest : List Nat) (h : d ∉ a) :
     have hc : (c == d) = false := by simp; exact fun e => h.1 e.symm
     simp [Mc.splitScalars, hc, ih h.2]
 
-theorem splitOn_none (d : UInt8) (a : Bytes) (h : d ∉ a) : splitOn d a = [a] := by
-  induction a with
-  | nil => rfl
-  | cons c r ih =>
-    simp only [List.mem_cons, not_or] at h
-    have hc : (c == d) = false := by simp; exact fun e => h.1 e.symm
-    simp [splitOn, hc, ih h.2]
-
-theorem splitOn_sep (d : UInt8) (a rest : Bytes) (h : d ∉ a) :
-    splitOn d (a ++ d :: rest) = a :: splitOn d rest := by
-  induction a with
-  | nil => simp [splitOn]
-  | cons c r ih =>
-    simp only [List.mem_cons, not_or] at h
-    have hc : (c == d) = false := by simp; exact fun e => h.1 e.symm
-    simp [splitOn, hc, ih h.2]
-
 /-! ### concatenating valid UTF-8 -/
 
 def VuIH (n : Nat) : Prop := ∀ (a b : Bytes), a.length ≤ n → validUtf8 a = true → validUtf8 b = true → validUtf8 (a ++ b) = true
